@@ -238,6 +238,10 @@ func (t *cellTr) eval(e ast.Expr) cval {
 		if t.bytesMode {
 			return cval{kind: "u64", expr: t.natExpr(x)}
 		}
+	case *ast.SliceExpr:
+		if t.bytesMode {
+			return cval{kind: "bytes", expr: t.bytesExpr(x)}
+		}
 	case *ast.BasicLit:
 		if t.bytesMode {
 			if v, ok := litVal(x); ok {
@@ -458,6 +462,9 @@ func (t *cellTr) inline(fd *ast.FuncDecl, recv *cval, args []cval, node ast.Node
 		t.fail(node, "inline arity")
 	}
 	for _, s := range fd.Body.List {
+		if t.bytesMode && t.encStmt(s) {
+			continue
+		}
 		if t.stmt(s) {
 			break
 		}
